@@ -42,7 +42,7 @@ def odml_tuple_import(t_count, new_value):
                 for tuple_val in n_val:
                     n_val_str += str(tuple_val) + "; "
                 return_value += [n_val_str[:-2] + ")"]
-        else:
+        elif isinstance(n_val, str):
             cln = n_val.strip()
             br_check = cln.count("(") == cln.count(")")
             sep_check = t_count == 1 or cln.count("(") == (cln.count(";") / (t_count - 1))
@@ -365,7 +365,7 @@ class BaseProperty(base.BaseObject):
         :return: list of new_value
         """
         if isinstance(new_value, str):
-            if new_value[0] == "[" and new_value[-1] == "]":
+            if new_value and new_value[0] == "[" and new_value[-1] == "]":
                 new_value = list(map(str.strip, new_value[1:-1].split(",")))
             else:
                 new_value = [new_value]
